@@ -217,7 +217,7 @@ def run(ctx):
         tier=ctx.tier,
         fixture='TransmissionModel(planet_radius, T, H2O[log]) + ArraySpectrum subclass (offset); derived logg, mu',
         exhaustive=('2 model + 1 observation parameters, 2 bound pairs (one reversed), 1 factor pair, 3 priors, '
-                    '2 update exponents, histories of <= 5 calls') if q else
+                    '2 update exponents, histories of <= 4 calls') if q else
                    ('3 model + 1 observation parameters, 3 bound pairs, 2 factor pairs, 4 priors, 2 update exponents, '
                     'histories of <= 5 calls'),
         behaviours='all histories of 3 calls over a reduced alphabet + %d simulated behaviours of 14 calls over the full alphabet' % (300 if q else 3000),
@@ -228,7 +228,8 @@ def run(ctx):
         'TLC + CommunityModules Json/IOUtils; the harness projection harness/fx_optimizer.py',
         'before the first compile_params() nothing is derived (Optimizer has no derived_parameters attribute yet)']
     # ---- design level
-    ctx.check_spec('exhaustive', 'MC_Optimizer', 'MC_Optimizer_%s.cfg' % ctx.tier, need_actions=NEED)
+    ctx.check_spec('coverage', 'MC_Optimizer', 'MC_Optimizer_cov.cfg', need_actions=NEED)      # vacuity: every action taken
+    ctx.check_spec('exhaustive', 'MC_Optimizer', 'MC_Optimizer_%s.cfg' % ctx.tier)
     ctx.exhaustive = True
     for cfg, inv in (('a', 'HistoryIndependent'), ('a2', 'DefaultsFollowSettings'), ('b', 'SpacesAgree'),
                      ('b2', 'RoundTrip'), ('c', 'KnownIsAccepted')):
